@@ -25,7 +25,7 @@ CONSTANTS NKeys,      \* key universe 0..NKeys-1
           Path,       \* path of the bucket under test, e.g. <<0>> or <<0, 3>>
           PreKinds,   \* subset of {"absent", "kv", "bucket", "nest"}
           Acts,       \* subset of {"keep", "put", "del", "mkb", "delb", "gocb",
-                      \*            "delsub", "delsubdelb", "delbmkb", "delbput"}
+                      \*            "delsub", "delsubdelb", "delbmkb", "delbput", "stale"}
           Tails,      \* subset of {"none", "delpath", "delpathmk"}: after the per-key actions of
                       \* tx2, delete the bucket under test itself (child, then ancestor) / recreate it
           Ends,       \* subset of {"commit", "drop", "reopen"}
@@ -109,6 +109,7 @@ ActOps(t, ac) ==
            [] ac[i] = "delb" -> <<Op(t, "delb", Path, Active[i], 0)>>
            [] ac[i] = "gocb" -> <<Op(t, "gocb", Path, Active[i], 0),
                                   Op(t, "put", Append(Path, Active[i]), 1, 2)>>
+           [] ac[i] = "stale" -> <<Op(t, "stale", Path, Active[i], i)>>
            [] ac[i] = "delsub" -> <<Op(t, "delb", Append(Path, Active[i]), 0, 0)>>
            [] ac[i] = "delsubdelb" -> <<Op(t, "delb", Append(Path, Active[i]), 0, 0),
                                         Op(t, "delb", Path, Active[i], 0)>>
